@@ -364,6 +364,30 @@ PROPS = {
             'Location, Word, Text, HereDoc, Field, XTrace, expansion errors, CString, NulError, ParseIntError are opaque placeholders; EnumSet<T> is a ghost set of flags with assumed contracts for empty / | / into / contains; Mode, the option set (one option) and file status (one bit) are reduced models; Errno::EBADF = 9, EEXIST = 17, ENOENT = 2',
         ],
     },
+    'C17': {
+        'v_units': ['aliaselig'],
+        'k_units': [],
+        'level': 'other',
+        'explanation': (
+            'Eligibility kernel only. Verus proves on the real Parser::substitute_alias (yash-syntax/src/parser/core.rs, its six-fold '
+            'let-chain checked as nested ifs) that a token is replaced by an alias EXACTLY when it is a word token (not an operator, IO '
+            'number or end of input) that is an unquoted literal, whose text names an alias in the glossary, that did not itself come out '
+            'of the replacement text of an alias of that name, and that is in command position or names a global alias or follows an alias '
+            'value ending with a blank; that the substitution is requested for that alias at the position of that token, once; and that every '
+            'other token is handed back unchanged with the input untouched. Source::is_alias_for (yash-env/src/source.rs), the recursion '
+            'guard, is proved equal to "the name is among the aliases in the chain of origins of this code" for chains of every depth '
+            '(structural recursion through Rc). NOT decided: termination and the resulting token sequence (they need the in-place splice of '
+            'LexerCore::substitute_alias - that the replacement text carries the alias in its origin chain - and the Rec::AliasSubstituted '
+            'restart protocol of the async parser), is_after_blank_ending_alias (uninterpreted here), recognition of reserved words and '
+            'operators in replacement text, the alias / unalias built-ins.'),
+        'trusted_base': ['Verus 0.2026.09.13 + Z3', '/verif/tools/vextract.py'],
+        'assumptions': [
+            'the glossary is a ghost map name -> alias behind a model trait (look_up answers the map; is_empty implies an empty map); `&dyn Glossary` is checked as a generic parameter (impl header replaced)',
+            'Word::to_string_if_literal, Lexer::is_after_blank_ending_alias and Lexer::substitute_alias are external_body: the first two answer uninterpreted views, the third is recorded in a ghost log',
+            'Location / Code / Source are reduced models (Source: the Alias variant and one variant for every other origin); String == &str compares the characters (helper verif_name_eq)',
+            'the let-chain of substitute_alias is checked as nested ifs (rewrite rule let-chain-nest)',
+        ],
+    },
     'C18': {
         'v_units': ['lineread'],
         'k_units': [],
